@@ -11,12 +11,12 @@ from dsim.world import World
 ID = 'C11'
 LEVEL = 'exploration'
 RULE = ('1-3 bundles relayed in sequence by one node (so that state carried from one bundle to the next shows): each with any combination of '
-        '0-2 previous-node, 0-2 hop-count, 0-1 age and 0-2 unknown extension blocks, arbitrary block numbers (gaps, large), CRC types 0/1/2 per '
-        'block, creation time zero or non-zero, flags, dtn/ipn endpoints; relay clock skew drawn per run and time advanced between bundles. '
+        '0-2 previous-node, 0-2 hop-count, 0-1 age and 0-2 unknown extension blocks, arbitrary block numbers (gaps, large; sometimes a duplicate, which may be refused but must not be transmitted), CRC types 0/1/2 per '
+        'block, creation time zero or non-zero, flags, dtn/ipn endpoints; relay clock skew (both signs) drawn per run, time advanced between bundles, and the relay process kept busy for 0-1.5 s between reception and the idle callback that forwards. '
         'Received encoding and transmitted bytes are both decoded by the reference decoder and compared. Non-trivial: at least one hop-by-hop '
         'block present on input; distinct = digest of the bundle descriptors.')
 COMPONENTS = bc.COMPONENTS
-PROBES = ('in.prev_node', 'in.hop_count', 'in.two_hop_count', 'in.age', 'in.create_time_zero', 'in.unknown_ext', 'in.large_block_num', 'seq.multi', 'probe.negative_age')
+PROBES = ('in.prev_node', 'in.hop_count', 'in.two_hop_count', 'in.age', 'in.create_time_zero', 'in.unknown_ext', 'in.large_block_num', 'seq.multi', 'probe.negative_age', 'fault.busy_before_forward', 'in.duplicate_block_num')
 ASSUMPTIONS = ['age is judged against the relay clock and only for non-negative differences (negative skew is a probe)',
                'hop counts are generated below their limit']
 CHUNK = 25
@@ -48,6 +48,11 @@ def gen(ch, tier):
             blocks.append(dict(type=7, num=num(), crc_type=ch.pick('c', 3), flags=0, age=ch.choice('agev', (0, 23, 1000, 70000))))
         for _ in range(ch.weighted('nunk', (4, 2, 1))):
             blocks.append(dict(type=ch.choice('ut', (192, 200, 64)), num=num(), crc_type=ch.pick('c', 3), flags=ch.choice('uf', (0, 1)), raw='4' + '3' + '616263'))
+        dup_nums = False
+        if len(blocks) >= 2 and ch.coin('dupnum', 1, 12):
+            # malformed input: two blocks with the same number (such a bundle must not leave with duplicate numbers)
+            blocks[1]['num'] = blocks[0]['num']
+            dup_nums = True
         order = list(range(len(blocks)))
         # shuffle block order deterministically
         for ix in range(len(order) - 1, 0, -1):
@@ -58,8 +63,9 @@ def gen(ch, tier):
             source=ch.choice('src', ('dtn://src/', 'ipn:3.1')), dest=ch.choice('dst', ('dtn://far/app', 'ipn:77.1')),
             report_to=ch.choice('rpt', ('dtn:none', 'dtn://rpt/')), time=ch.choice('ct', (0, 820000000000, 820000000000)) , seqno=bix,
             lifetime=ch.choice('life', (1000, 3600000)), flags=ch.choice('fl', (0, 4, 0x20)), pri_crc=ch.choice('pc', (0, 1, 2, 2)),
-            pay_crc=ch.pick('yc', 3), plen=1 + ch.pick('plen', 60), tag=bix + 1, blocks=blocks, gap_ms=ch.choice('gap', (0, 1, 999, 60000))))
-    return dict(scenario='bp_forward', bundles=bundles, skew_ms=ch.choice('skew', (0, 0, 5000, 86400000)))
+            pay_crc=ch.pick('yc', 3), plen=1 + ch.pick('plen', 60), tag=bix + 1, blocks=blocks, gap_ms=ch.choice('gap', (0, 1, 999, 60000)),
+            busy_ms=ch.choice('busy', (0, 0, 0, 3, 40, 1500)), dup_nums=dup_nums))
+    return dict(scenario='bp_forward', bundles=bundles, skew_ms=ch.choice('skew', (0, 0, 5000, 86400000, -5000, -86400000)))
 
 
 def encode(item):
@@ -112,6 +118,12 @@ def _drive(run, plan, har):
         mark = len(har.cl_out['n1'])
         t_before = har.wld.wall_us(har.node['n1'])
         rec = har.receive('n1', data)
+        # slow node: the process is busy for a while between reception and the idle callback that forwards
+        busy_us = item.get('busy_ms', 0) * 1000
+        if busy_us:
+            node = har.node['n1']
+            node.stall_until = max(node.stall_until, har.wld.now + busy_us)
+            run.stats['fault.busy_before_forward'] = 1
         har.settle()
         t_after = har.wld.wall_us(har.node['n1'])
         outs = har.cl_out['n1'][mark:]
@@ -121,6 +133,11 @@ def _drive(run, plan, har):
             run.viols.append(('wellformed', 'undecodable-output', '%s: transmitted bytes are not a well-formed bundle: %s' % (where, errs[0][1])))
             return
         fwds = [dec for dec in decoded if not bc.is_admin(dec)]
+        if item.get('dup_nums'):
+            run.stats['in.duplicate_block_num'] = 1
+            if not fwds:
+                # refusing a bundle with duplicate block numbers is fine
+                continue
         if len(fwds) != 1:
             run.viols.append(('forwarded', 'count-%d' % len(fwds), '%s was transmitted %d times (recv error %s, actions %s)' % (where, len(fwds), rec['error'], rec['actions'])))
             return
@@ -155,7 +172,8 @@ def _drive(run, plan, har):
             run.viols.append(('age', 'count-%d' % len(ages), '%s: %d Bundle Age blocks transmitted' % (where, len(ages))))
         elif ages and pin['create_time'] != 0:
             age = cbor2.loads(ages[0]['btsd'])
-            low = t_before // 1000 - DTN_EPOCH_UNIX * 1000 - pin['create_time']
+            # the age is that at forwarding (RFC 9171 4.4.2), which cannot begin before the node is free again
+            low = (t_before + busy_us) // 1000 - DTN_EPOCH_UNIX * 1000 - pin['create_time']
             high = t_after // 1000 - DTN_EPOCH_UNIX * 1000 - pin['create_time']
             if low < 0:
                 run.stats['probe.negative_age'] = 1
